@@ -250,17 +250,19 @@ theorem jac_entry (fs : List Fn) (lo n : ℕ) (env : ℕ → ℝ) (i j : ℕ) (h
 /-! ### 5. the NLS state machine -/
 section
 variable {α : Type} [Scalar α]
-theorem runN_append (al : Bool) (fs gs : List Fn) (S : NState α) (a b : List (NEv α)) :
-    runN al fs gs S (a ++ b) = runN al fs gs (runN al fs gs S a) b := by
+theorem runN_append (al ax : Bool) (fs gs : List Fn) (S : NState α) (a b : List (NEv α)) :
+    runN al ax fs gs S (a ++ b) = runN al ax fs gs (runN al ax fs gs S a) b := by
   simp [runN, List.foldl_append]
 
-theorem runN_cons (al : Bool) (fs gs : List Fn) (S : NState α) (e : NEv α) (es : List (NEv α)) :
-    runN al fs gs S (e :: es) = runN al fs gs (stepN al fs gs S e).1 es := by
+theorem runN_cons (al ax : Bool) (fs gs : List Fn) (S : NState α) (e : NEv α) (es : List (NEv α)) :
+    runN al ax fs gs S (e :: es) = runN al ax fs gs (stepN al ax fs gs S e).1 es := by
   simp [runN]
 
-/-- events other than `set_refpoint` leave the five `_ref_*` attributes alone -/
-theorem stepN_nonref (al : Bool) (fs gs : List Fn) (S : NState α) (e : NEv α) (h : e.isRef = false) :
-    let S' := (stepN al fs gs S e).1
+/-- events other than `set_refpoint` leave the five `_ref_*` attributes alone — in-place updates of the caller's
+tensors included when the reference point is a snapshot (`ax = false`) -/
+theorem stepN_nonref (al ax : Bool) (fs gs : List Fn) (S : NState α) (e : NEv α) (h : e.isRef = false)
+    (hp : ax = false ∨ e.isPoke = false) :
+    let S' := (stepN al ax fs gs S e).1
     S'.refx = S.refx ∧ S'.refu = S.refu ∧ S'.reft = S.reft ∧ S'.reff = S.reff ∧ S'.refg = S.refg ∧
       S'.clock = stepClock .nls S.clock e.toEv := by
   cases e with
@@ -268,18 +270,24 @@ theorem stepN_nonref (al : Bool) (fs gs : List Fn) (S : NState α) (e : NEv α) 
   | call x u => simp [stepN, NEv.toEv, stepClock]
   | reset t => simp [stepN, NEv.toEv, stepClock]
   | assign t => simp [stepN, NEv.toEv, stepClock]
+  | poke tgt v =>
+    rcases hp with rfl | hp
+    · cases tgt <;> simp [stepN, pokeN, NEv.toEv, stepClock]
+    · simp [NEv.isPoke] at hp
 
-theorem runN_nonref (al : Bool) (fs gs : List Fn) (post : List (NEv α)) :
-    ∀ (S : NState α), (∀ e ∈ post, e.isRef = false) →
-    let S' := runN al fs gs S post
+theorem runN_nonref (al ax : Bool) (fs gs : List Fn) (post : List (NEv α)) :
+    ∀ (S : NState α), (∀ e ∈ post, e.isRef = false) → (ax = false ∨ ∀ e ∈ post, e.isPoke = false) →
+    let S' := runN al ax fs gs S post
     S'.refx = S.refx ∧ S'.refu = S.refu ∧ S'.reft = S.reft ∧ S'.reff = S.reff ∧ S'.refg = S.refg ∧
       S'.clock = runClock .nls S.clock (post.map NEv.toEv) := by
   induction post with
-  | nil => intro S _; simp [runN, runClock]
+  | nil => intro S _ _; simp [runN, runClock]
   | cons e es ih =>
-    intro S h
-    have h1 := stepN_nonref al fs gs S e (h e (by simp))
-    have h2 := ih (stepN al fs gs S e).1 (fun e' he' => h e' (by simp [he']))
+    intro S h hp
+    have hp1 : ax = false ∨ e.isPoke = false := hp.imp id (fun q => q e (by simp))
+    have hp2 : ax = false ∨ ∀ e' ∈ es, e'.isPoke = false := hp.imp id (fun q e' he' => q e' (by simp [he']))
+    have h1 := stepN_nonref al ax fs gs S e (h e (by simp)) hp1
+    have h2 := ih (stepN al ax fs gs S e).1 (fun e' he' => h e' (by simp [he'])) hp2
     simp only [runN_cons]
     simp only at h1 h2 ⊢
     obtain ⟨a1, a2, a3, a4, a5, a6⟩ := h1
@@ -296,6 +304,7 @@ theorem setRefpoint_ok (al : Bool) (fs gs : List Fn) (S : NState α) (x? u? : Op
       S'.reff = some (evalAll fs (mkEnv x u (rt.value S.clock))) ∧
       S'.refg = some (evalAll gs (mkEnv x u (rt.value S.clock))) ∧ S'.clock = S.clock := by
   simp [setRefpoint, hx, hu]
+
 end
 
 /-! ### 6. second-order expansions -/
